@@ -28,6 +28,10 @@ from contextlib import contextmanager
 
 INF = float("inf")
 ONE_MINUS = 1.0 - 2.0 ** -53
+# buggify's upper extreme for a uniform: a legal value that is met with
+# non-negligible probability (2^-20 per draw), unlike 1-2^-53 whose only effect
+# is to expose rounding in cumulative scans with probability ~1e-16
+HIGH_U = 1.0 - 2.0 ** -20
 
 SEEDED, SCRIPTED, BUGGIFY = "seeded", "scripted", "buggify"
 
@@ -178,7 +182,7 @@ class SimRandom(_random.Random):
             return self._next("r", None)
         v = self.inner.random()
         if self.mode == BUGGIFY and self._bug(self._site("r")):
-            v = 0.0 if self.bugrng.random() < 0.5 else ONE_MINUS
+            v = 0.0 if self.bugrng.random() < 0.5 else HIGH_U
             self._fire("uniform_extreme")
         self._log("r", None, v)
         return v
